@@ -674,10 +674,13 @@ class _Eval:
             # object identity: two syntactically equal constructor calls create two objects
             kws = kws + (("#new", ("const", self.b.site_id(e))),)
         term = ("call", ft, args, kws)
-        # optional inlining of repo callees
-        if self.b.inline is not None and self.b.resolver is not None and self.depth < self.b.max_depth:
+        # optional inlining of repo callees; a callee that did not exist when the rules were written (an extracted helper) is looked
+        # through by default, a little deeper than the requested bound
+        if self.b.resolver is not None and self.depth < self.b.max_depth + 2 and (self.b.inline is not None or _maybe_new(ft)):
             callees = self.b.resolver.resolve_call(self.func, e, self.self_cls)
-            if len(callees) == 1 and isinstance(callees[0], FuncInfo) and self.b.inline(self.func, e, callees[0]):
+            if len(callees) == 1 and isinstance(callees[0], FuncInfo) and (
+                    (self.b.inline is not None and self.depth < self.b.max_depth and self.b.inline(self.func, e, callees[0]))
+                    or _is_new_function(callees[0])):
                 callee = callees[0]
                 bind = bind_args(callee, args, kws, method=callee.cls is not None and not _is_static(callee))
                 if bind is not None:
@@ -695,6 +698,39 @@ class _Eval:
                     self.sum.raises += [(self.pc + pc, t, n) for pc, t, n in s.raises]
                     return s.ret()
         return term
+
+
+_KNOWN = None
+_KNOWN_BARE = None
+
+
+def _known_functions():
+    global _KNOWN
+    if _KNOWN is None:
+        import os
+        p = os.path.join(os.path.dirname(os.path.abspath(__file__)), "known_functions.txt")
+        try:
+            _KNOWN = {l.strip() for l in open(p) if l.strip()}
+        except OSError:
+            _KNOWN = set()
+    return _KNOWN
+
+
+def _maybe_new(ft):
+    """cheap pre-filter before resolving a call: self.<name>(..) or <name>(..) whose name is in no known qualname"""
+    name = ft[2] if ft[0] == "attr" else (ft[1].split(":")[-1].split(".")[-1] if ft[0] == "global" else None)
+    if name is None:
+        return False
+    k = _known_functions()
+    global _KNOWN_BARE
+    if _KNOWN_BARE is None:
+        _KNOWN_BARE = {q.split(":")[-1].split(".")[-1] for q in k}
+    return bool(k) and name not in _KNOWN_BARE
+
+
+def _is_new_function(fi):
+    k = _known_functions()
+    return bool(k) and fi.fq not in k and fi.name != "__init__"
 
 
 def _ctor_name(ft):
